@@ -65,6 +65,7 @@ package drpcmigrate
 //@   site Write assert [C16.passthrough] arg1 == buf
 //@   check [C16.count]     0 <= n && n <= len(buf)
 //@   check [C16.once-skip] eventCount("once-skip") == 1 ==> eventCount("invoke:Write") == 1
+//@   check [C16.single-write] eventCount("invoke:Write") == 1
 
 // Accept fails with the stored error once done is closed; the error is stored before done is closed
 // (so it is never nil when observed after the close).
